@@ -45,6 +45,7 @@ from explorerscript.ssb_converting.ssb_data_types import (
     SsbOpParamPositionMarker,
     SsbOpParamFixedPoint,
 )
+from explorerscript.ssb_converting.ssb_special_ops import OPS_WITH_JUMP_TO_MEM_OFFSET
 from explorerscript.util import open_utf8
 
 
@@ -65,12 +66,30 @@ class RoutineDict(TypedDict):
     ops: list[OpDict]
 
 
-def build_ops(ops: list[SsbOperation]) -> list[OpDict]:
+def build_offset_mapping(routine_ops: list[list[SsbOperation]]) -> dict[int, int]:
+    """
+    Maps the opcode offsets used by the compiler (which may have gaps, if opcodes were optimized away) to the
+    indices of the operations in the JSON output: 1-based, counted across all routines.
+    """
+    mapping: dict[int, int] = {}
+    for ops in routine_ops:
+        for op in ops:
+            mapping[op.offset] = len(mapping) + 1
+    return mapping
+
+
+def build_ops(ops: list[SsbOperation], offset_mapping: dict[int, int] | None = None) -> list[OpDict]:
+    if offset_mapping is None:
+        offset_mapping = {}
     out_ops: list[OpDict] = []
     for op in ops:
         out_op: OpDict = {"opcode": op.op_code.name, "params": []}
-        for param in op.params:
+        jump_param_idx = OPS_WITH_JUMP_TO_MEM_OFFSET.get(op.op_code.name, None)
+        for param_idx, param in enumerate(op.params):
             if isinstance(param, int):
+                if param_idx == jump_param_idx:
+                    # Jump targets have to refer to the indices of the operations in the output.
+                    param = offset_mapping.get(param, param)
                 out_op["params"].append(param)
             elif isinstance(param, SsbOpParamFixedPoint):
                 out_op["params"].append({"type": "FIXED_POINT", "value": param.value})
@@ -94,29 +113,31 @@ def build_routines_json(
     routine_infos: list[SsbRoutineInfo], named_coroutines: list[str], routine_ops: list[list[SsbOperation]]
 ) -> list[RoutineDict]:
     routines: list[RoutineDict] = []
-    for info, name, ops in zip(routine_infos, named_coroutines, routine_ops):
+    offset_mapping = build_offset_mapping(routine_ops)
+    for info, name, ops_of_routine in zip(routine_infos, named_coroutines, routine_ops):
+        ops = build_ops(ops_of_routine, offset_mapping)
         routine: RoutineDict
         if info.type == SsbRoutineType.COROUTINE:
-            routine = {"type": "COROUTINE", "name": name, "ops": build_ops(ops)}
+            routine = {"type": "COROUTINE", "name": name, "ops": ops}
         elif info.type == SsbRoutineType.GENERIC:
-            routine = {"type": "GENERIC", "ops": build_ops(ops)}
+            routine = {"type": "GENERIC", "ops": ops}
         elif info.type == SsbRoutineType.ACTOR:
             routine = {
                 "type": "ACTOR",
                 "target_id": info.linked_to if info.linked_to is not -1 else info.linked_to_name,
-                "ops": build_ops(ops),
+                "ops": ops,
             }
         elif info.type == SsbRoutineType.OBJECT:
             routine = {
                 "type": "OBJECT",
                 "target_id": info.linked_to if info.linked_to is not -1 else info.linked_to_name,
-                "ops": build_ops(ops),
+                "ops": ops,
             }
         elif info.type == SsbRoutineType.PERFORMER:
             routine = {
                 "type": "PERFORMER",
                 "target_id": info.linked_to if info.linked_to is not -1 else info.linked_to_name,
-                "ops": build_ops(ops),
+                "ops": ops,
             }
         else:
             raise ValueError(f"invalid routine type {info.type}")
@@ -183,6 +204,8 @@ if __name__ == "__main__":
     }
 
     if args.source_map is not None:
+        # The source map has to use the same opcode indices as the JSON output.
+        compiler.source_map.rewrite_offsets(build_offset_mapping(compiler.routine_ops))
         with open_utf8(args.source_map, "w") as f:
             f.write(compiler.source_map.serialize())
 
